@@ -3,6 +3,8 @@ package drivers
 import (
 	"encoding/json"
 	"fmt"
+	"github.com/consensys/gnark/frontend"
+	"github.com/wormhole-foundation/example-near-light-client/plonk/gates"
 	"math/big"
 	"sort"
 
@@ -166,6 +168,9 @@ func c05(raw json.RawMessage, resp *drv.Response) error {
 	}
 	if req.Part == "gadget" {
 		return c05Gadget(resp)
+	}
+	if req.Part == "gates" {
+		return c05Gates(req, resp)
 	}
 	return fmt.Errorf("unknown part %q", req.Part)
 }
@@ -358,6 +363,88 @@ func hintStrategy(name string, h *engine.HintCall) []*big.Int {
 			return []*big.Int{new(big.Int).Add(g[0], one)}
 		case "zero":
 			return []*big.Int{big.NewInt(0)}
+		}
+	}
+	return nil
+}
+
+// c05Gates: the gate evaluators with parameters the shipped circuits do not have (other bases, limb counts, copies, degrees).  Their
+// arithmetic goes through the same prover-supplied quotients and remainders; the two halves of the property are decided on the real
+// code: (fit) a random row evaluated with the honest hints is accepted, (single result) the field-wrap alternative (quotient and
+// remainder of x + r) at the first occurrence of every static hint site is rejected by the local constraints.
+func c05Gates(req c05Req, resp *drv.Response) error {
+	rng := drv.Rng(int64(5500 + req.Shard))
+	type gp struct {
+		kind string
+		p    []int
+	}
+	var list []gp
+	for _, b := range []int{2, 3, 4, 5, 8} {
+		for _, l := range []int{1, 4, 20} {
+			list = append(list, gp{"BaseSumGate", []int{l, b}})
+		}
+	}
+	for _, n := range []int{1, 7, 20} {
+		list = append(list, gp{"ArithmeticGate", []int{n}}, gp{"MulExtensionGate", []int{n}}, gp{"ReducingGate", []int{n}}, gp{"ExponentiationGate", []int{n}})
+	}
+	list = append(list, gp{"ArithmeticExtensionGate", []int{5}}, gp{"ReducingExtensionGate", []int{9}}, gp{"RandomAccessGate", []int{2, 3, 2}}, gp{"RandomAccessGate", []int{5, 1, 0}},
+		gp{"ConstantGate", []int{3}}, gp{"PoseidonMdsGate", []int{0}})
+	for _, g := range list {
+		id := gateID(gateSpec{Kind: g.kind, P: g.p}, nil)
+		row := randRow(rng, 160, 8)
+		sites := map[string]*engine.SiteStat{}
+		var honestErr error
+		func() {
+			defer func() {
+				if x := recover(); x != nil {
+					honestErr = fmt.Errorf("%v", x)
+				}
+			}()
+			honestErr = hc.Run(&engine.Config{Mode: engine.Native, Sites: sites}, row.flat(), func(api frontend.API, iv []frontend.Variable) error {
+				gates.GateInstanceFromId(id).EvalUnfiltered(api, gl.New(api), *row.vars(iv))
+				return nil
+			})
+		}()
+		resp.Count("gates/fit/"+id, false)
+		if honestErr != nil {
+			resp.Violate("c05/fit/honest-rejected gadget=gate:"+g.kind, fmt.Sprintf("%s on a random row with the honest hints is rejected: %s", id, firstLine(honestErr)), map[string]any{"gate": id})
+			continue
+		}
+		for _, st := range sites {
+			if st.Name != "ReduceHint" && st.Name != "MulAddHint" {
+				continue
+			}
+			applied, trivial := false, false
+			cfg := &engine.Config{Mode: engine.Native, Permissive: true, AbortAfterLocal: true, TargetGlobal: st.FirstOcc}
+			cfg.Strategy = func(h *engine.HintCall) []*big.Int {
+				applied = true
+				out := hintStrategy("k1", h)
+				if out == nil {
+					trivial = true
+				}
+				return out
+			}
+			func() {
+				defer func() { recover() }()
+				hc.Run(cfg, row.flat(), func(api frontend.API, iv []frontend.Variable) error {
+					gates.GateInstanceFromId(id).EvalUnfiltered(api, gl.New(api), *row.vars(iv))
+					return nil
+				})
+			}()
+			if !applied || trivial {
+				continue
+			}
+			resp.Count("gates/k1/"+id+"/"+st.Site, false)
+			if cfg.LocalAccepted {
+				short := st.Site
+				if len(short) > 120 {
+					short = short[:120]
+				}
+				resp.Violate("c05/gate/accepted gate="+g.kind+" hint="+st.Name+" strat=k1", fmt.Sprintf("%s: the quotient and remainder of the integer + r (a wrap of BN254's field) at %s satisfy the local constraints: a second result is accepted", id, short), map[string]any{"gate": id, "site": st.Site})
+			}
+		}
+		if len(resp.Samples) < 4 {
+			resp.Sample(map[string]any{"gate": id, "hint_sites": len(sites)})
 		}
 	}
 	return nil
